@@ -9,7 +9,7 @@ let of_spec s = match split_on '.' s with
                                  v_dontlearn = (d = "1"); v_applied = (a = "1"); v_policy = zi pol }
   | _ -> failwith "vxlan spec"
 let desc = { fresh = vx_fresh; decode = vx_decode_into; serialize = Some vx_serialize; fields;
-  contents = (fun l -> l.v_contents); payload = (fun l -> l.v_payload); next = (fun _ -> "ethernet");
+  contents = (fun l -> l.v_contents); payload = (fun l -> l.v_payload); next = (fun _ _ -> "ethernet");
   render_panics = vx_render_panics; of_spec; junk_len = 8 }
 let run id ops out = run_generic desc id ops out
 let registered = Registry.register "Lvxlan" run
